@@ -165,7 +165,7 @@ class Ctx:
                     "functions_analysed": len(self.prog.funcs) if self.prog else 0,
                     "samples": samples[:40] or [{"note": "no instances"}],
                     "exhaustive": True,
-                    **self.extra,
+                    **{k: v for k, v in self.extra.items() if isinstance(k, str) and not k.startswith("_")},
                 },
                 "assumptions": self.assumptions,
                 "wall_s": round(time.time() - self.t0, 3),
